@@ -316,7 +316,7 @@ Definition dg6 : book := apply_op true bd0 dg5 do6.
 Definition demo_G : book := apply_op true bd0 dg6 do7.
 Definition demo_sl : list (N * list (N * N)) :=
   [(1%N, [(10%N, 2%N); (11%N, 3%N)]); (2%N, [(20%N, 4%N)]); (3%N, [(21%N, 4%N)]); (4%N, [])].
-Definition demo_read : op := OpRead (serializeBook demo_G) [(1%N, 7%N); (2%N, 5%N); (3%N, 9%N); (4%N, 3%N)] demo_sl.
+Notation demo_read := (OpRead (serializeBook demo_G) [(1%N, 7%N); (2%N, 5%N); (3%N, 9%N); (4%N, 3%N)] demo_sl).
 
 Example demo_read_ok : read_ok demo_succ demo_G (serializeBook demo_G) demo_sl.
 Proof.
@@ -369,23 +369,30 @@ Lemma steps_ok_cons : forall succ bd g o t, op_ok2 succ g o -> (bk_err (apply_op
   steps_ok succ bd (apply_op true bd g o) t -> steps_ok succ bd g (o :: t).
 Proof. intros. cbn [steps_ok]. auto. Qed.
 
+Lemma op_ok2_read : forall succ g recs addrs sl, read_ok succ g recs sl -> op_ok2 succ g (OpRead recs addrs sl).
+Proof. intros succ g recs addrs sl H. exact H. Qed.
+
+Example ds8a : op_ok2 demo_succ demo_G demo_read.
+Proof. apply op_ok2_read. exact demo_read_ok. Qed.
+Example ds8b : steps_ok demo_succ bd0 (apply_op true bd0 demo_G demo_read) [].
+Proof. exact I. Qed.
 Example ds8 : steps_ok demo_succ bd0 demo_G [demo_read].
-Proof. apply steps_ok_cons; [exact demo_read_ok|exact de8|exact I]. Qed.
+Proof. exact (steps_ok_cons demo_succ bd0 demo_G demo_read [] ds8a de8 ds8b). Qed.
 Example ds7 : steps_ok demo_succ bd0 dg6 [do7; demo_read].
-Proof. apply steps_ok_cons; [exact da7|exact de7|]. pose proof ds8 as S. unfold demo_G in S at 1. exact S. Qed.
+Proof. exact (steps_ok_cons demo_succ bd0 dg6 do7 [demo_read] da7 de7 ds8). Qed.
 Example ds6 : steps_ok demo_succ bd0 dg5 [do6; do7; demo_read].
-Proof. apply steps_ok_cons; [exact da6|exact de6|]. pose proof ds7 as S. unfold dg6 in S at 1. exact S. Qed.
+Proof. exact (steps_ok_cons demo_succ bd0 dg5 do6 [do7; demo_read] da6 de6 ds7). Qed.
 Example ds5 : steps_ok demo_succ bd0 dg4 [do5; do6; do7; demo_read].
-Proof. apply steps_ok_cons; [exact da5|exact de5|]. pose proof ds6 as S. unfold dg5 in S at 1. exact S. Qed.
+Proof. exact (steps_ok_cons demo_succ bd0 dg4 do5 [do6; do7; demo_read] da5 de5 ds6). Qed.
 Example ds4 : steps_ok demo_succ bd0 dg3 [do4; do5; do6; do7; demo_read].
-Proof. apply steps_ok_cons; [exact da4|exact de4|]. pose proof ds5 as S. unfold dg4 in S at 1. exact S. Qed.
+Proof. exact (steps_ok_cons demo_succ bd0 dg3 do4 [do5; do6; do7; demo_read] da4 de4 ds5). Qed.
 Example ds3 : steps_ok demo_succ bd0 dg2 [do3; do4; do5; do6; do7; demo_read].
-Proof. apply steps_ok_cons; [exact da3|exact de3|]. pose proof ds4 as S. unfold dg3 in S at 1. exact S. Qed.
+Proof. exact (steps_ok_cons demo_succ bd0 dg2 do3 [do4; do5; do6; do7; demo_read] da3 de3 ds4). Qed.
 Example ds2 : steps_ok demo_succ bd0 dg1 [do2; do3; do4; do5; do6; do7; demo_read].
-Proof. apply steps_ok_cons; [exact da2|exact de2|]. pose proof ds3 as S. unfold dg2 in S at 1. exact S. Qed.
+Proof. exact (steps_ok_cons demo_succ bd0 dg1 do2 [do3; do4; do5; do6; do7; demo_read] da2 de2 ds3). Qed.
 (** the hypotheses of C19_fixpoint / C19_reload_reproduces hold for this history *)
 Example demo_steps_ok : steps_ok demo_succ bd0 (newBook 1 100) [do1; do2; do3; do4; do5; do6; do7; demo_read].
-Proof. apply steps_ok_cons; [exact da1|exact de1|]. pose proof ds2 as S. unfold dg1 in S at 1. exact S. Qed.
+Proof. exact (steps_ok_cons demo_succ bd0 dg0 do1 [do2; do3; do4; do5; do6; do7; demo_read] da1 de1 ds2). Qed.
 
 (** what the theorems predict is what happens: the reloaded example has the saved values *)
 Example demo_reload_values :
